@@ -3,7 +3,7 @@
    [dedup_booked_before_decision], [metrics_snapshot_after_join] are regenerated from the source on every run. *)
 From Coq Require Import NArith Bool List.
 Import ListNotations.
-From XetModel Require Import Base.Codec Gen.ShardLayout Gen.DedupFacts Model.Merkle Model.Shard Model.Dedup Proofs.PipelineProofs Proofs.DefragProofs Proofs.ResolveProofs Proofs.BytesProofs.
+From XetModel Require Import Base.Codec Gen.ShardLayout Gen.DedupFacts Model.Merkle Model.Shard Model.Dedup Proofs.PipelineProofs Proofs.DefragProofs Proofs.ResolveProofs Proofs.BytesProofs Proofs.SessionMetricsProofs.
 Open Scope N_scope.
 
 (* new + deduplicated = total (bytes and chunks) after every process_chunks call, for every oracle *)
@@ -54,6 +54,13 @@ Proof. exact defrag_whole_run_refuted. Qed.
 Theorem C14_session_sums : forall rc cf s file m, s_metrics (register_completion rc cf s file m) = m_add (s_metrics s) m.
 Proof. exact register_completion_metrics. Qed.
 
+(* ... over a whole session, whatever the order of completions and mid-file registrations; and new + deduplicated = total
+   carries over from the files to the session *)
+Theorem C14_session_metrics_are_sums : forall rc cf ops, s_metrics (srun rc cf ops) = sum_metrics ops.
+Proof. exact session_metrics_are_sums. Qed.
+Theorem C14_session_conservation : forall rc cf ops, Forall (fun o => mcons (op_metrics o)) ops -> mcons (s_metrics (srun rc cf ops)).
+Proof. exact session_conservation. Qed.
+
 (* the upload-byte counters are read after every upload task has been joined (fact regenerated from finalize_impl) *)
 Example C14_metrics_snapshot_after_join : metrics_snapshot_after_join = true.
 Proof. reflexivity. Qed.
@@ -66,3 +73,5 @@ Print Assumptions C14_total_chunks_exact.
 Print Assumptions C14_session_sums.
 Print Assumptions C14_total_bytes_exact.
 Print Assumptions C14_withheld_subset_of_new.
+Print Assumptions C14_session_metrics_are_sums.
+Print Assumptions C14_session_conservation.
